@@ -57,11 +57,6 @@ func c04AlignFromCallback(t *tabular.ATable, aligns []int) {
 }
 
 func c04Check(c *Ctx, spec *gen.TableSpec, aligns []int, decos []namedDeco, st *stage, sample bool) {
-	m := textModelOf(spec)
-	m.Aligns = make([]int, m.NCols)
-	for i := range m.Aligns {
-		m.Aligns[i] = effectiveAlign(aligns, i+1)
-	}
 	t0 := tabular.New()
 	reused := texttable.Wrap(t0)
 	// in a fifth of the cases the assignment is made by the application's own render-time callback on the table
@@ -100,6 +95,11 @@ func c04Check(c *Ctx, spec *gen.TableSpec, aligns []int, decos []namedDeco, st *
 	}
 	if viaCallback {
 		c.Rec.Count("cases_whose_alignments_are_assigned_by_a_render-time_callback_of_the_table", 1)
+	}
+	m := textModelOf(spec) // after the build: a table whose wider header was replaced says itself how many columns it has
+	m.Aligns = make([]int, m.NCols)
+	for i := range m.Aligns {
+		m.Aligns[i] = effectiveAlign(aligns, i+1)
 	}
 	widths := model.ColumnWidths(m, length.StringCells)
 	declW, declH := false, false
